@@ -2,8 +2,19 @@ import Pandora.Drv.Util
 import Pandora.Model.C12
 import Pandora.Spec.C12
 
+/-
+C12 driver: for one case (input line, observation of the real engine)
+* the Spec verdict on the observation (`Spec.C12.judge`);
+* the model's prediction: the observed history is REPLAYED through the transition system `Model.C12.run` — one `wait`
+  (+ `timerFire`) per creation attempt with the observed token / hand-out / creation instants, then the observed causes
+  and instance exits in the order of their instants, then the `Wait` call that ended the loop (entered with the start
+  context cancelled, or on the exhausted schedule, or — when one more token was handed out than instances were attempted
+  — asleep and woken by the cancellation).  Predicted from the final model state: `started`, the ids of the bound
+  instances, the number of instances still running, the `err` class of the start loop where it is determined, and the
+  number of instances `k` clamped into the margin-based bounds of the Spec.  Everything else is echoed.
+-/
 namespace Pandora.Drv.C12
-open Pandora.Drv Pandora.Model.C12 Pandora.Spec.C12
+open Pandora.Drv Pandora.Model.C04 Pandora.Model.C12 Pandora.Spec.C12
 
 def parsePart (s : String) : Option Part :=
   match s.splitOn ":" with
@@ -19,21 +30,97 @@ def parsePairs (s : String) : Option (List (String × Int)) :=
     | [a, b] => do pure (a, ← b.toInt?)
     | _ => none
 
+def parseExits (s : String) : Option (List (Nat × Int × String)) :=
+  (splitList s).mapM fun p => match p.splitOn ":" with
+    | [a, b, c] => do pure (← a.toNat?, ← b.toInt?, c)
+    | _ => none
+
 def parseObs (kv : List (String × String)) : Option Obs := do
   let binds ← (← parsePairs (getS kv "binds")).mapM fun (a, b) => do pure ((← a.toNat?), b)
   pure { k := ← getN? kv "k", err := getS kv "err", mstart := ← getN? kv "mstart", fails := ← getN? kv "fails",
-         total := ← getN? kv "total", toks := ← parseInts (getS kv "toks"), ctoks := ← parseInts (getS kv "ctoks"),
-         binds, exits := ← parseInts (getS kv "exits"), cuts := ← parsePairs (getS kv "cuts") }
+         total := ← getN? kv "total", started := getN? kv "started", starterr := getS kv "starterr" "?",
+         running := (getN? kv "running").getD 0,
+         toks := ← parseInts (getS kv "toks"), picks := ← parseInts (getS kv "picks"),
+         ctoks := ← parseInts (getS kv "ctoks"), guns := ← parseInts (getS kv "guns"),
+         binds, exits := ← parseExits (getS kv "exits"), cuts := ← parsePairs (getS kv "cuts"),
+         jitter := (getI? kv "jitter").getD 0 }
+
+def reasonOf : String → Option ExitReason
+  | "sched" => some .scheduleEnd
+  | "ammo" => some .ammoEnd
+  | "ctx" => some .cancelled
+  | "err" => some .error
+  | _ => none
+
+/-- the environment events (causes and instance exits) in the order of their observed instants; a cause precedes an
+exit at the same instant; an exit whose reason was not logged is replayed as the reason the current causes allow -/
+def envEvents (perinst : Bool) (o : Obs) : List Event :=
+  let causes : List (Int × Nat × List Event) := o.cuts.filterMap fun (kind, t) =>
+    match kind with
+    | "ammo" => none            -- becomes visible through the exit of the instance that was refused
+    | "rps" => if perinst then none else some (t, 0, [.rpsFinished])
+    | "cancel" => some (t, 0, [.runCancel])
+    | "fail" => some (t, 0, [.runCancel])   -- the failing pool cancels the run (a failed FIRST instance ends the loop itself)
+    | _ => none
+  let exits : List (Int × Nat × List Event) := o.exits.map fun (id, t, r) =>
+    match reasonOf r with
+    | some .ammoEnd => (t, 1, [.instanceExit id .ammoEnd, .outOfAmmoResult])
+    | some rs => (t, 1, [.instanceExit id rs])
+    | none => (t, 1, [.instanceExit id .cancelled, .instanceExit id .scheduleEnd, .instanceExit id .ammoEnd, .outOfAmmoResult])
+  let all := (causes ++ exits).toArray.qsort (fun a b => a.1 < b.1 || (a.1 == b.1 && a.2.1 < b.2.1))
+  all.toList.flatMap (·.2.2)
+
+/-- replay of the observation through the model -/
+def replay (perinst : Bool) (o : Obs) : St :=
+  let c : Cfg := { perInstance := perinst }
+  let attempts := o.guns.length
+  let ids := o.binds.map (·.1)
+  let waitOf (j : Nat) : Event :=
+    let tok := o.toks[j]?.getD 0
+    let pick := o.picks[j]?.getD tok
+    let ret := max pick tok
+    let created := match o.binds.find? (·.1 == j) with | some b => b.2 | none => o.guns[j]?.getD ret
+    .wait { ctxDone := false, tok := some tok, pick := pick, now := pick, arm := pick, ret := ret, timerWins := true }
+      (ids.contains j) (created - ret).toNat
+  let starts := (List.range attempts).flatMap fun j => [waitOf j, .timerFire]
+  -- the whole profile: the tokens handed out, then the remaining ones at their offsets from the observed start
+  let base := match o.toks.head?, o.ctoks.head? with | some t0, some c0 => t0 - c0 | _, _ => 0
+  let full := o.toks ++ (o.ctoks.drop o.toks.length).map (· + base)
+  let s := run c (St.init full) starts
+  -- a failed FIRST instance ends the loop; otherwise the last `Wait` call ends it
+  if o.toks.length > attempts then
+    -- one more token was handed out: that call went to sleep and was woken by the cancellation
+    let s := run c s [waitOf attempts]
+    let s := run c s (envEvents perinst o)
+    run c s [.wakeCancelled]
+  else
+    let s := run c s (envEvents perinst o)
+    run c s [.wait { ctxDone := s.startCtxDone, tok := s.toks.head?, timerWins := true } true 0]
+
+def natList (l : List Nat) : String := ",".intercalate (l.map toString)
 
 def handle : Handler := fun input impl =>
   match parseParts (getS (parseKV input) "startup"), parseObs (parseKV impl) with
   | some parts, some o =>
-    -- the model's number of instances: every token released `margin` before the first cause, none released `margin` after it
     let perinst := getS (parseKV input) "perinst" == "1"
+    let s := replay perinst o
+    -- the model's number of instances: every token released `margin` before the first cause, none released `margin` after it
     let (lo, hi) := kBounds perinst o
     let k := if o.k < lo then lo else if o.k > hi then hi else o.k
+    let mids := (s.created.filter (·.ok)).map (·.id)
+    let starterr :=
+      if s.phase != .done then "loop-not-finished"
+      else if s.ret == .create then "other"
+      else if o.cuts.isEmpty then "nil"
+      else if o.toks.length > o.guns.length then "ctx"
+      else o.starterr
     let mobs := " ".intercalate ((parseKV impl).map fun (a, b) =>
-      if a == "k" then s!"k={k}" else if a == "mstart" then s!"mstart={k}" else s!"{a}={b}")
+      if a == "k" then s!"k={k}" else if a == "mstart" then s!"mstart={k}"
+      else if a == "started" then (if o.started.isSome then s!"started={s.started}" else s!"started={b}")
+      else if a == "starterr" then (if o.starterr == "?" then s!"starterr={b}" else s!"starterr={starterr}")
+      else if a == "ids" then s!"ids={natList mids}"
+      else if a == "running" then s!"running={s.running.length}"
+      else s!"{a}={b}")
     let v := judge parts perinst o
     let v := if v == "ok" && lo != hi then "skip:inconclusive-count-inside-margin" else v
     (mobs, v)
